@@ -127,6 +127,13 @@ func RunC06(c *Ctx) {
 		if wok {
 			c.Guarded(cs, "UnescapeStringContent", func() {
 				content := d[p0+1 : wend-1]
+				if len(content) <= 256 {
+					gb, pb, eb := rjson.UnescapeStringContent(withBait(content), nil)
+					c.Rec.Evals(1)
+					if eb != nil || !bytes.Equal(gb, ws) || pb != len(content) {
+						c.Rec.Violate(cs, "UnescapeStringContent result depends on bytes beyond len(data)", "UnescapeStringContent", fmt.Sprintf("val=%q p=%d err=<nil>", ws, len(content)), fmt.Sprintf("val=%q p=%d err=%s", gb, pb, errStr(eb)))
+					}
+				}
 				for i := 0; i < 2; i++ {
 					var dst []byte
 					if i == 1 {
@@ -168,6 +175,7 @@ func RunC06(c *Ctx) {
 		workload.W7Generated(150000, c.Seed, sink)
 	}
 	workload.W1R(sink)
+	workload.W1Words(sink)
 	workload.W7Templates(sink)
 	workload.W7Positions(72, sink)
 	workload.W7Triples(sink)
